@@ -158,6 +158,7 @@ func MakeCert(o CertOpts) (tls.Certificate, string, error) {
 
 type App struct {
 	Name      string
+	dead      atomic.Bool // the hub behind this application was replaced by a restart: a real reboot leaves nothing behind
 	L         *Log
 	AllowWait atomic.Bool
 	Echo      atomic.Bool // echo every received payload back
@@ -175,19 +176,26 @@ type appReader struct {
 }
 
 func (r *appReader) HandleShipPayloadMessage(m []byte) {
-	r.a.L.Add(r.a.Name, "payload", r.ski, string(m), len(m))
+	r.a.L.Add(r.a.who(), "payload", r.ski, string(m), len(m))
 	if r.a.Echo.Load() && !strings.Contains(string(m), `"echo":true`) {
 		r.w.WriteShipMessageWithPayload([]byte(strings.Replace(string(m), `"echo":false`, `"echo":true`, 1)))
 	}
 }
 
-func (a *App) RemoteSKIConnected(ski string)    { a.L.Add(a.Name, "connected", ski, "", 0) }
-func (a *App) RemoteSKIDisconnected(ski string) { a.L.Add(a.Name, "disconnected", ski, "", 0) }
+func (a *App) who() string {
+	if a.dead.Load() {
+		return a.Name + "(before-restart)"
+	}
+	return a.Name
+}
+
+func (a *App) RemoteSKIConnected(ski string)    { a.L.Add(a.who(), "connected", ski, "", 0) }
+func (a *App) RemoteSKIDisconnected(ski string) { a.L.Add(a.who(), "disconnected", ski, "", 0) }
 func (a *App) SetupRemoteDevice(ski string, w api.ShipConnectionDataWriterInterface) api.ShipConnectionDataReaderInterface {
 	a.mu.Lock()
 	a.writers[ski] = w
 	a.mu.Unlock()
-	a.L.Add(a.Name, "setup", ski, "", 0)
+	a.L.Add(a.who(), "setup", ski, "", 0)
 	return &appReader{a: a, ski: ski, w: w}
 }
 func (a *App) VisibleRemoteServicesUpdated(entries []api.RemoteService) {
@@ -196,10 +204,10 @@ func (a *App) VisibleRemoteServicesUpdated(entries []api.RemoteService) {
 		skis = append(skis, short(e.Ski))
 	}
 	sort.Strings(skis)
-	a.L.Add(a.Name, "visible", "", strings.Join(skis, ","), len(entries))
+	a.L.Add(a.who(), "visible", "", strings.Join(skis, ","), len(entries))
 }
 func (a *App) ServiceShipIDUpdate(ski string, id string) {
-	a.L.Add(a.Name, "shipid", ski, id, 0)
+	a.L.Add(a.who(), "shipid", ski, id, 0)
 	if a.StoreID.Load() && a.node != nil {
 		a.node.Hub.ServiceForSKI(ski).SetShipID(id)
 	}
@@ -209,7 +217,7 @@ func (a *App) ServicePairingDetailUpdate(ski string, d *api.ConnectionStateDetai
 	if d.Error() != nil {
 		es = d.Error().Error()
 	}
-	a.L.Add(a.Name, "pairing", ski, es, int(d.State()))
+	a.L.Add(a.who(), "pairing", ski, es, int(d.State()))
 }
 func (a *App) AllowWaitingForTrust(ski string) bool {
 	v := a.AllowWait.Load()
@@ -542,6 +550,7 @@ func (nd *Node) build() {
 
 // Restart replaces the hub of a node by a fresh one (same certificate and port): a device reboot.
 func (nd *Node) Restart() {
+	nd.App.dead.Store(true)
 	nd.Hub.Shutdown()
 	nd.bus.unannounce(nd)
 	nd.bus.mu.Lock()
